@@ -11,6 +11,7 @@ import (
 	"io"
 	"log"
 	"math/rand"
+	"net"
 	"os"
 	"strconv"
 	"sync"
@@ -108,6 +109,25 @@ func vLoadScen(v any) bool {
 		panic(err)
 	}
 	return true
+}
+
+// vFreePort asks the kernel for a port nobody uses right now (other checks, sweeps or the repository's own tests may run
+// on this machine at the same time; a fixed port would turn their presence into a failed Start).
+func vFreePort(network string) int {
+	if network == "udp" {
+		c, err := net.ListenPacket("udp", "127.0.0.1:0")
+		if err != nil {
+			panic(err)
+		}
+		defer c.Close()
+		return c.LocalAddr().(*net.UDPAddr).Port
+	}
+	l, err := net.Listen("tcp", ":0")
+	if err != nil {
+		panic(err)
+	}
+	defer l.Close()
+	return l.Addr().(*net.TCPAddr).Port
 }
 
 func vRng() *rand.Rand { return rand.New(rand.NewSource(vSeed)) }
